@@ -17,9 +17,12 @@ use std::sync::{Arc, Mutex};
 pub const DEF: PropDef = PropDef {
     id: "C10",
     level: "model_checking",
-    rule: "single-thread: every in-order stream of <=4 items (thorough <=5), each item a (triple from a 3-triple alphabet, gap in {0,1,2} to the previous timestamp) pair, fed to a real single-window RSPEngine built with RSPBuilder for {RSTREAM, ISTREAM, DSTREAM} x (width,slide) in {(3,1),(2,2),(4,2),(3,2)} x 6 query/rule configurations (one pattern, two-pattern join, pattern over a derived predicate; no rules, subclass rule, two-step chain, inverse-property rule; alphabets contain a triple that is also derivable, so base and derived facts coincide and re-arrive after eviction); oracle per firing: window content from a probe CSPARQLWindow with identical parameters, rows = BGP answers over content + naive rule closure of the content, passed through the R2S reference (all / new / vanished w.r.t. the previous firing); the emitted row sequence must be the concatenation of permutations of the expected per-firing multisets. Multi-thread: the same cases for streams of <=3 items (thorough <=4) in OperationMode::MultiThread under the baton scheduler (hook H1): every schedule with <= 2 preemptions (thorough: streams of <=4 items; stateless DFS) must emit exactly the single-thread sequence, without deadlock. plus a sparse-stream family (the same products over streams with gaps {1,5}, which exceed every width: windows close EMPTY between non-empty firings and ISTREAM/DSTREAM must difference against the empty firing) and a long-stream family (12 items, ~11 firings, producer far ahead of the worker) under every schedule with <= 1 (thorough 2) preemptions. states = engine runs (one per stream prefix-closed history), transitions = stream items fed, traces = complete executions (streams x schedules). Non-trivial = case whose expected output is non-empty and has >= 2 firings; distinct by (configuration, stream).",
+    rule: "single-thread: every in-order stream of <=4 items (thorough <=5), each item a (triple from a 3-triple alphabet, gap in {0,1,2} to the previous timestamp) pair, fed to a real single-window RSPEngine built with RSPBuilder for {RSTREAM, ISTREAM, DSTREAM} x (width,slide) in {(3,1),(2,2),(4,2),(3,2)} x 6 query/rule configurations (one pattern, two-pattern join, pattern over a derived predicate; no rules, subclass rule, two-step chain, inverse-property rule; alphabets contain a triple that is also derivable, so base and derived facts coincide and re-arrive after eviction); oracle per firing: window content from a probe CSPARQLWindow with identical parameters, rows = BGP answers over content + naive rule closure of the content, passed through the R2S reference (all / new / vanished w.r.t. the previous firing); the emitted row sequence must be the concatenation of permutations of the expected per-firing multisets. Multi-thread: the same cases for streams of <=3 items (thorough <=4) in OperationMode::MultiThread under the baton scheduler (hook H1): every schedule with <= 2 preemptions (thorough: streams of <=4 items; stateless DFS) must emit exactly the single-thread sequence, without deadlock. plus a sparse-stream family (the same products over streams with gaps {1,5}, which exceed every width: windows close EMPTY between non-empty firings and ISTREAM/DSTREAM must difference against the empty firing) and a long-stream family (12 items, ~11 firings, producer far ahead of the worker) under every schedule with <= 1 (thorough 2) preemptions. states = engine runs (one per stream prefix-closed history), transitions = stream items fed, traces = complete executions (streams x schedules). Families added after the round-3 audit, all with the same oracle: WIDE - configurations spo_all / spo_chain (window block `?s ?p ?o`, no rules / two-step chain: the expected rows are the whole closure of the window content, so ANY leftover raw or derived triple of an evicted item is a row) and two_premise (rule {?x p ?y . ?y p ?z} => {?x r ?z} over (a p b),(b p c),(a p c): a derived fact depends on two items of which one is evicted), streams of <= 3 items for every operator x window (two_premise also 4 items for RSTREAM on (3,1) and (4,2); thorough: <= 4 everywhere), schedules (bound 2) for <= 2 items on half of the product (thorough <= 3 items); STATIC - one window plus a static pattern (`?s type Super` in the window, `?s q ?k` over three static triples, subclass rule), i.e. has_joins with a single window: SingleThread (rows reach the consumer at the next add_to_stream; a final process_single_thread_window_results() drains the last firing) and MultiThread with the coordinator thread as third scheduled thread (quick: <= 2 items with <= 1 preemption, 3 items on window (2,2) with every non-preemptive schedule; thorough <= 2 items bound 2, 3 items bound 1), expected rows = window-block answers joined with the static answers, then the stream operator; FAT - an event of 140 triples (70 subjects x {type Super, p c}) among single-triple events, two-pattern join, streams of <= 2 events (thorough 3): the join input exceeds BIND_JOIN_MIN_CHUNK = 64 rows and splits 64 + 6 on the 2-thread pool; VARIANT - configuration join_subclass with the window written as `[RANGE w]` (slide = width), `[RANGE PTwS STEP PTsS]`, `[RANGE w STEP s REPORT ON_WINDOW_CLOSE TICK TIME_DRIVEN]`, or fed through the legacy RSPEngine::add / add_to_stream(\"s\") (bare stream name), probe built from the intended numbers. Non-trivial = case whose expected output is non-empty and has >= 2 firings; distinct by (configuration, variant, stream).",
     assumptions: &[
         "the probe window is the real CSPARQLWindow (its own correctness is C09's subject)",
+        "static family: the query's answers at a firing are read as the window-block answers naturally joined with the answers of the static patterns over the static data (compatible mappings merged, no row when either side is empty) - the same reading C11 uses; WHEN the rows of a firing reach the consumer is not judged (single-thread engines with a static part deliver them one call later), only the emitted sequence",
+        "fat family: whether the optimizer really picks the parallel bind join for the 70-row input is not observable from outside; that the family reaches it is shown by the kept mutation proposed/mutant-C10-bind-join-par-chunks-exact.patch",
+        "SELECT projection (`SELECT ?s`) is parsed but not applied by RSPBuilder; every generated query is `SELECT *`, so nothing is claimed about projection",
         "stop()'s flush is excluded (it reports all open windows by design; the repository's tests avoid it too): engines are dropped",
         "multi-thread schedules: scheduling points at channel send/receive and around the window processor (hook H1 in rsp_engine.rs / s2r.rs); interleavings inside the store mutex are not points; memory-ordering effects are not modelled",
     ],
@@ -39,13 +42,67 @@ fn iri(local: &str) -> String {
 #[derive(Clone, Debug)]
 pub struct Config {
     pub name: &'static str,
-    /// (s, p, o) lexical triples of the stream alphabet
-    pub alphabet: Vec<(String, String, String)>,
+    /// "core" (the original six), "wide" (whole-store / two-premise observability), "static" (window
+    /// block joined with a static pattern: the has_joins pipeline with one window), "fat" (an event of 140 triples)
+    pub family: &'static str,
+    /// the stream alphabet: EVENTS, each a list of (s, p, o) lexical triples fed at one timestamp
+    pub alphabet: Vec<Vec<(String, String, String)>>,
     /// window block patterns
     pub query: Vec<TP>,
     /// rules as (premises, conclusions)
     pub rules: Vec<(Vec<TP>, Vec<TP>)>,
+    /// patterns outside the window block and the static N-Triples data they are evaluated on
+    pub static_part: Option<(Vec<TP>, Vec<(String, String, String)>)>,
+    /// how the window is written in the query text and through which entry point items are fed
+    pub variant: Variant,
 }
+
+/// Query-text and entry-point variants that must all mean the same window on the same stream.
+#[derive(Clone, Copy, PartialEq, Eq, Debug, Hash)]
+pub enum Variant {
+    /// `[RANGE w STEP s]`, fed with add_to_stream(":s", ..)
+    Default,
+    /// `[RANGE w]` - the builder sets slide = width (only generated for width == slide)
+    RangeOnly,
+    /// `[RANGE PTwS STEP PTsS]`
+    IsoDurations,
+    /// `[RANGE w STEP s REPORT ON_WINDOW_CLOSE TICK TIME_DRIVEN]` (the defaults, written out)
+    ExplicitReportTick,
+    /// fed through the legacy RSPEngine::add (all windows)
+    LegacyAdd,
+    /// fed with add_to_stream("s", ..) - the stream name without the leading colon
+    BareStreamName,
+}
+pub const VARIANTS: [Variant; 5] = [Variant::RangeOnly, Variant::IsoDurations, Variant::ExplicitReportTick, Variant::LegacyAdd, Variant::BareStreamName];
+impl Variant {
+    fn name(self) -> &'static str {
+        match self {
+            Variant::Default => "default",
+            Variant::RangeOnly => "range_only",
+            Variant::IsoDurations => "iso_durations",
+            Variant::ExplicitReportTick => "explicit_report_tick",
+            Variant::LegacyAdd => "legacy_add",
+            Variant::BareStreamName => "bare_stream_name",
+        }
+    }
+    fn parse(s: &str) -> Option<Variant> {
+        VARIANTS.into_iter().chain([Variant::Default]).find(|v| v.name() == s)
+    }
+    fn window_text(self, width: usize, slide: usize) -> String {
+        match self {
+            Variant::RangeOnly => format!("[RANGE {}]", width),
+            Variant::IsoDurations => format!("[RANGE PT{}S STEP PT{}S]", width, slide),
+            Variant::ExplicitReportTick => format!("[RANGE {} STEP {} REPORT ON_WINDOW_CLOSE TICK TIME_DRIVEN]", width, slide),
+            _ => format!("[RANGE {} STEP {}]", width, slide),
+        }
+    }
+}
+
+type Lex = (String, String, String);
+fn one(t: Lex) -> Vec<Lex> {
+    vec![t]
+}
+pub const FAT_SUBJECTS: usize = 70;
 
 fn v(n: &str) -> T {
     T::var(n)
@@ -63,23 +120,39 @@ fn t3(s: &str, p: &str, o: &str) -> (String, String, String) {
 
 pub fn configs() -> Vec<Config> {
     let sub_rule = (vec![tp(v("x"), ty(), c("Sub"))], vec![tp(v("x"), ty(), c("Super"))]);
+    let chain = vec![(vec![tp(v("x"), ty(), c("Sub"))], vec![tp(v("x"), ty(), c("Mid"))]), (vec![tp(v("x"), ty(), c("Mid"))], vec![tp(v("x"), ty(), c("Super"))])];
+    let core = |name: &'static str, alphabet: [Lex; 3], query: Vec<TP>, rules: Vec<(Vec<TP>, Vec<TP>)>| Config { name, family: "core", alphabet: alphabet.into_iter().map(one).collect(), query, rules, static_part: None, variant: Variant::Default };
+    let spo = || vec![tp(v("s"), v("p"), v("o"))];
+    let mut fat: Vec<Lex> = Vec::new();
+    for i in 0..FAT_SUBJECTS {
+        fat.push(t3(&format!("x{}", i), "a", "Super"));
+        fat.push(t3(&format!("x{}", i), "p", "c"));
+    }
     vec![
-        Config { name: "one_pattern_no_rules", alphabet: vec![t3("a", "a", "Super"), t3("b", "a", "Super"), t3("a", "a", "Sub")], query: vec![tp(v("s"), ty(), c("Super"))], rules: vec![] },
-        Config { name: "one_pattern_subclass", alphabet: vec![t3("a", "a", "Sub"), t3("a", "a", "Super"), t3("b", "a", "Sub")], query: vec![tp(v("s"), ty(), c("Super"))], rules: vec![sub_rule.clone()] },
+        core("one_pattern_no_rules", [t3("a", "a", "Super"), t3("b", "a", "Super"), t3("a", "a", "Sub")], vec![tp(v("s"), ty(), c("Super"))], vec![]),
+        core("one_pattern_subclass", [t3("a", "a", "Sub"), t3("a", "a", "Super"), t3("b", "a", "Sub")], vec![tp(v("s"), ty(), c("Super"))], vec![sub_rule.clone()]),
+        core("one_pattern_chain", [t3("a", "a", "Sub"), t3("a", "a", "Mid"), t3("b", "a", "Sub")], vec![tp(v("s"), ty(), c("Super"))], chain.clone()),
+        core("join_no_rules", [t3("a", "a", "Super"), t3("a", "p", "c"), t3("b", "p", "c")], vec![tp(v("s"), ty(), c("Super")), tp(v("s"), c("p"), v("o"))], vec![]),
+        core("join_subclass", [t3("a", "a", "Sub"), t3("a", "p", "c"), t3("b", "a", "Super")], vec![tp(v("s"), ty(), c("Super")), tp(v("s"), c("p"), v("o"))], vec![sub_rule.clone()]),
+        core("derived_predicate_inverse", [t3("a", "p", "b"), t3("b", "q", "a"), t3("a", "p", "a")], vec![tp(v("s"), c("q"), v("o"))], vec![(vec![tp(v("x"), c("p"), v("y"))], vec![tp(v("y"), c("q"), v("x"))])]),
+        // whole-store observability: ANY leftover raw or derived triple of an evicted item is a row
+        Config { family: "wide", ..core("spo_all", [t3("a", "a", "Sub"), t3("a", "p", "b"), t3("b", "a", "Sub")], spo(), vec![]) },
+        Config { family: "wide", ..core("spo_chain", [t3("a", "a", "Sub"), t3("a", "a", "Mid"), t3("b", "a", "Sub")], spo(), chain) },
+        // a derived fact that depends on TWO items of which only one may be evicted
         Config {
-            name: "one_pattern_chain",
-            alphabet: vec![t3("a", "a", "Sub"), t3("a", "a", "Mid"), t3("b", "a", "Sub")],
-            query: vec![tp(v("s"), ty(), c("Super"))],
-            rules: vec![(vec![tp(v("x"), ty(), c("Sub"))], vec![tp(v("x"), ty(), c("Mid"))]), (vec![tp(v("x"), ty(), c("Mid"))], vec![tp(v("x"), ty(), c("Super"))])],
+            family: "wide",
+            ..core("two_premise", [t3("a", "p", "b"), t3("b", "p", "c"), t3("a", "p", "c")], vec![tp(v("s"), c("r"), v("o"))], vec![(vec![tp(v("x"), c("p"), v("y")), tp(v("y"), c("p"), v("z"))], vec![tp(v("x"), c("r"), v("z"))])])
         },
-        Config { name: "join_no_rules", alphabet: vec![t3("a", "a", "Super"), t3("a", "p", "c"), t3("b", "p", "c")], query: vec![tp(v("s"), ty(), c("Super")), tp(v("s"), c("p"), v("o"))], rules: vec![] },
-        Config { name: "join_subclass", alphabet: vec![t3("a", "a", "Sub"), t3("a", "p", "c"), t3("b", "a", "Super")], query: vec![tp(v("s"), ty(), c("Super")), tp(v("s"), c("p"), v("o"))], rules: vec![sub_rule] },
+        // one window + a static pattern: has_joins = true with num_windows = 1 (results channel,
+        // process_single_thread_window_results / coordinator thread, R2S inside emit_results)
         Config {
-            name: "derived_predicate_inverse",
-            alphabet: vec![t3("a", "p", "b"), t3("b", "q", "a"), t3("a", "p", "a")],
-            query: vec![tp(v("s"), c("q"), v("o"))],
-            rules: vec![(vec![tp(v("x"), c("p"), v("y"))], vec![tp(v("y"), c("q"), v("x"))])],
+            family: "static",
+            static_part: Some((vec![tp(v("s"), c("q"), v("k"))], vec![t3("a", "q", "k1"), t3("a", "q", "k2"), t3("c", "q", "k1")])),
+            ..core("static_join_subclass", [t3("a", "a", "Sub"), t3("b", "a", "Super"), t3("a", "a", "Super")], vec![tp(v("s"), ty(), c("Super"))], vec![sub_rule.clone()])
         },
+        // an event of 140 triples (70 subjects x {type Super, p c}): the join's left side exceeds
+        // BIND_JOIN_MIN_CHUNK = 64 rows and splits unevenly (64 + 6) on a 2-thread pool
+        Config { name: "join_fat_event", family: "fat", alphabet: vec![fat, one(t3("x0", "a", "Super")), one(t3("y", "p", "c"))], query: vec![tp(v("s"), ty(), c("Super")), tp(v("s"), c("p"), v("o"))], rules: vec![], static_part: None, variant: Variant::Default },
     ]
 }
 
@@ -92,11 +165,11 @@ fn pattern_text(ts: &[TP]) -> String {
 
 fn query_text(op: &str, width: usize, slide: usize, cfg: &Config) -> String {
     format!(
-        "REGISTER {} <http://out/stream> AS SELECT * FROM NAMED WINDOW :w ON :s [RANGE {} STEP {}] WHERE {{ WINDOW :w {{ {} }} }}",
+        "REGISTER {} <http://out/stream> AS SELECT * FROM NAMED WINDOW :w ON :s {} WHERE {{ WINDOW :w {{ {} }} {} }}",
         op,
-        width,
-        slide,
-        pattern_text(&cfg.query)
+        cfg.variant.window_text(width, slide),
+        pattern_text(&cfg.query),
+        cfg.static_part.as_ref().map(|(p, _)| pattern_text(p)).unwrap_or_default()
     )
 }
 
@@ -138,8 +211,25 @@ fn build_engine(op: &str, width: usize, slide: usize, cfg: &Config, mode: Operat
     if !rules.is_empty() {
         b = b.add_rules(rules);
     }
-    let engine = b.build()?;
+    let mut engine = b.build()?;
+    if let Some((_, data)) = &cfg.static_part {
+        let text: String = data.iter().map(|t| line(t) + "\n").collect();
+        engine.add_static_ntriples(&text);
+    }
     Ok((engine, sink))
+}
+
+/// the events of the alphabet as dictionary-encoded triples of this engine
+fn parse_alphabet(engine: &mut RSPEngine<Triple, Row>, cfg: &Config) -> Vec<Vec<Triple>> {
+    cfg.alphabet.iter().map(|event| event.iter().flat_map(|t| engine.parse_data(&line(t))).collect()).collect()
+}
+
+fn feed(engine: &mut RSPEngine<Triple, Row>, variant: Variant, t: Triple, ts: usize) {
+    match variant {
+        Variant::LegacyAdd => engine.add(t, ts),
+        Variant::BareStreamName => engine.add_to_stream("s", t, ts),
+        _ => engine.add_to_stream(":s", t, ts),
+    }
 }
 
 fn normalize_row(r: &Row) -> Row {
@@ -151,11 +241,16 @@ fn normalize_row(r: &Row) -> Row {
 /// Run one stream through a real single-thread engine; emitted rows in order.
 pub fn run_single(op: &str, width: usize, slide: usize, cfg: &Config, stream: &Stream) -> Result<Vec<Row>, String> {
     let (mut engine, sink) = build_engine(op, width, slide, cfg, OperationMode::SingleThread)?;
-    let triples: Vec<Vec<Triple>> = cfg.alphabet.iter().map(|t| engine.parse_data(&line(t))).collect();
+    let triples = parse_alphabet(&mut engine, cfg);
     for (ai, ts) in stream {
         for t in &triples[*ai] {
-            engine.add_to_stream(":s", t.clone(), *ts);
+            feed(&mut engine, cfg.variant, t.clone(), *ts);
         }
+    }
+    if cfg.static_part.is_some() {
+        // with a static part (has_joins) a single-thread engine hands a firing's rows to the consumer at
+        // the start of the NEXT add_to_stream; this public call drains the last firing
+        engine.process_single_thread_window_results();
     }
     let rows = sink.lock().unwrap().iter().map(normalize_row).collect();
     drop(engine);
@@ -182,7 +277,9 @@ fn probe_contents(width: usize, slide: usize, stream: &Stream) -> Vec<BTreeSet<u
 fn closure(cfg: &Config, content: &BTreeSet<usize>) -> Dataset {
     let mut ds = Dataset::default();
     for ai in content {
-        ds.default.insert(cfg.alphabet[*ai].clone());
+        for t in &cfg.alphabet[*ai] {
+            ds.default.insert(t.clone());
+        }
     }
     loop {
         let mut added = false;
@@ -212,13 +309,15 @@ fn closure(cfg: &Config, content: &BTreeSet<usize>) -> Dataset {
 
 /// expected emitted rows per firing
 pub fn expected(op: &str, width: usize, slide: usize, cfg: &Config, stream: &Stream) -> Vec<Vec<Row>> {
+    apply_r2s(op, &relations(width, slide, cfg, stream))
+}
+
+/// the relation-to-stream reference: all rows / rows new / rows vanished w.r.t. the previous relation
+pub fn apply_r2s(op: &str, rels: &[Vec<Row>]) -> Vec<Vec<Row>> {
     let mut out = Vec::new();
     let mut prev: BTreeSet<Row> = BTreeSet::new();
-    for content in probe_contents(width, slide, stream) {
-        let ds = closure(cfg, &content);
-        let view = View::of(&ds, &[], &[]);
-        let sols = eval_group(&Group(vec![Elem::Triples(cfg.query.clone())]), &view, None).unwrap_or_default();
-        let rows: Vec<Row> = sols.into_iter().map(|mu: BTreeMap<String, String>| mu.into_iter().collect::<Row>()).collect();
+    for rows in rels {
+        let rows = rows.clone();
         let cur: BTreeSet<Row> = rows.iter().cloned().collect();
         let emitted: Vec<Row> = match op {
             "RSTREAM" => rows,
@@ -227,6 +326,63 @@ pub fn expected(op: &str, width: usize, slide: usize, cfg: &Config, stream: &Str
         };
         prev = cur;
         out.push(emitted);
+    }
+    out
+}
+
+/// Diagnosis only (a structural tag for attribution): is the emitted sequence what the stream operator
+/// yields when some firings never reach it, i.e. the expected output of a proper SUBSEQUENCE of the firings?
+fn explained_by_skipped_firings(op: &str, rels: &[Vec<Row>], got: &[Row]) -> bool {
+    let n = rels.len();
+    if n == 0 || n > 12 {
+        return false;
+    }
+    (0..(1u32 << n) - 1).any(|mask| {
+        let sub: Vec<Vec<Row>> = rels.iter().enumerate().filter(|(i, _)| mask >> i & 1 == 1).map(|(_, r)| r.clone()).collect();
+        compare(&apply_r2s(op, &sub), got).is_ok()
+    })
+}
+
+fn multi_tags(op: &str, w: (usize, usize), cfg: &Config, stream: &Stream, got: &[Row]) -> Vec<String> {
+    let mut t = tags(op, cfg, "multi");
+    if explained_by_skipped_firings(op, &relations(w.0, w.1, cfg, stream), got) {
+        t.push("explained_by=firings_skipped_before_the_stream_operator".into());
+    }
+    t
+}
+
+/// the query's answers per firing (before the stream operator)
+pub fn relations(width: usize, slide: usize, cfg: &Config, stream: &Stream) -> Vec<Vec<Row>> {
+    let mut out = Vec::new();
+    // answers of the static patterns over the static data (never part of a window)
+    let static_sols: Option<Vec<Mu>> = cfg.static_part.as_ref().map(|(pats, data)| {
+        let mut ds = Dataset::default();
+        for t in data {
+            ds.default.insert(t.clone());
+        }
+        let view = View::of(&ds, &[], &[]);
+        eval_group(&Group(vec![Elem::Triples(pats.clone())]), &view, None).unwrap_or_default()
+    });
+    for content in probe_contents(width, slide, stream) {
+        let ds = closure(cfg, &content);
+        let view = View::of(&ds, &[], &[]);
+        let mut sols: Vec<Mu> = eval_group(&Group(vec![Elem::Triples(cfg.query.clone())]), &view, None).unwrap_or_default();
+        if let Some(st) = &static_sols {
+            // the query's answers: window-block answers joined with the static answers (compatible mappings merged)
+            let mut joined: Vec<Mu> = Vec::new();
+            for a in &sols {
+                for b in st {
+                    if a.iter().all(|(k, v)| b.get(k).map_or(true, |bv| bv == v)) {
+                        let mut m = a.clone();
+                        m.extend(b.iter().map(|(k, v)| (k.clone(), v.clone())));
+                        joined.push(m);
+                    }
+                }
+            }
+            sols = joined;
+        }
+        let rows: Vec<Row> = sols.into_iter().map(|mu: BTreeMap<String, String>| mu.into_iter().collect::<Row>()).collect();
+        out.push(rows);
     }
     out
 }
@@ -275,11 +431,22 @@ fn streams(len: usize, gaps: &[usize]) -> Vec<Stream> {
 }
 
 fn case_json(op: &str, w: (usize, usize), cfg: &Config, stream: &Stream, mode: &str, schedule: Option<&[usize]>) -> Value {
-    json!({"op": op, "width": w.0, "slide": w.1, "config": cfg.name, "stream": stream, "mode": mode, "schedule": schedule})
+    let mut v = json!({"op": op, "width": w.0, "slide": w.1, "config": cfg.name, "stream": stream, "mode": mode, "schedule": schedule});
+    if cfg.variant != Variant::Default {
+        v["variant"] = json!(cfg.variant.name());
+    }
+    v
 }
 
 fn tags(op: &str, cfg: &Config, mode: &str) -> Vec<String> {
-    vec![format!("op={}", op), format!("config={}", cfg.name), format!("mode={}", mode), format!("rules={}", cfg.rules.len())]
+    let mut t = vec![format!("op={}", op), format!("config={}", cfg.name), format!("mode={}", mode), format!("rules={}", cfg.rules.len()), format!("family={}", cfg.family)];
+    if cfg.static_part.is_some() {
+        t.push("query_has_static_part".into());
+    }
+    if cfg.variant != Variant::Default {
+        t.push(format!("variant={}", cfg.variant.name()));
+    }
+    t
 }
 
 fn check_single(out: &mut ShardOut, op: &str, w: (usize, usize), cfg: &Config, stream: &Stream) -> Option<Vec<Row>> {
@@ -290,7 +457,7 @@ fn check_single(out: &mut ShardOut, op: &str, w: (usize, usize), cfg: &Config, s
     let exp = expected(op, w.0, w.1, cfg, stream);
     let nonempty: usize = exp.iter().filter(|f| !f.is_empty()).count();
     if exp.len() >= 2 && nonempty >= 1 {
-        out.nontrivial(&(op, w, cfg.name, stream));
+        out.nontrivial(&(op, w, cfg.name, cfg.variant.name(), stream));
     }
     let got = match guarded(|| run_single(op, w.0, w.1, cfg, stream)) {
         Err(p) => {
@@ -331,10 +498,10 @@ fn run_multi(op: &str, w: (usize, usize), cfg: &Config, stream: &Stream, prefix:
     let so = Arc::clone(&sink_out);
     let trace = sched::run_controlled(prefix, move || {
         let (mut engine, sink) = build_engine(&op, w.0, w.1, &cfg2, OperationMode::MultiThread).expect("engine build");
-        let triples: Vec<Vec<Triple>> = cfg2.alphabet.iter().map(|t| engine.parse_data(&line(t))).collect();
+        let triples = parse_alphabet(&mut engine, &cfg2);
         for (ai, ts) in &stream2 {
             for t in &triples[*ai] {
-                engine.add_to_stream(":s", t.clone(), *ts);
+                feed(&mut engine, cfg2.variant, t.clone(), *ts);
             }
         }
         // let the worker drain everything that was sent, then shut down by dropping the engine
@@ -404,7 +571,7 @@ fn check_multi(out: &mut ShardOut, ctx: &Ctx, op: &str, w: (usize, usize), cfg: 
                         case_json(op, w, cfg, stream, "multi", Some(&trace.choices)),
                         "multi_thread_emission_differs",
                         format!("single-thread emitted {:?}\n  multi-thread under schedule {:?} emitted {:?}", single, trace.choices, rows),
-                        tags(op, cfg, "multi"),
+                        multi_tags(op, w, cfg, stream, &rows),
                     );
                 }
                 _ => out.machinery_errors.push(format!("schedule replay diverged for {:?} {:?}", stream, trace.choices)),
@@ -430,9 +597,190 @@ fn check_multi(out: &mut ShardOut, ctx: &Ctx, op: &str, w: (usize, usize), cfg: 
     out.max("max_schedules_per_case", schedules);
 }
 
+/// One case of a new family: single-thread oracle, then (if `mt_bound` is given) every schedule within the bound.
+fn family_case(ctx: &Ctx, out: &mut ShardOut, op: &str, w: (usize, usize), cfg: &Config, stream: &Stream, mt_bound: Option<usize>) {
+    let fam = if cfg.variant != Variant::Default { "variant" } else { cfg.family };
+    out.count(&format!("{}_streams", fam), 1);
+    let exp = expected(op, w.0, w.1, cfg, stream);
+    let contents = probe_contents(w.0, w.1, stream);
+    // vacuity: what the family is there to cross
+    if contents.windows(2).any(|p| !p[0].is_subset(&p[1])) {
+        out.count(&format!("{}_streams_with_an_item_evicted_between_two_firings", fam), 1);
+    }
+    if exp.iter().any(|f| !f.is_empty()) {
+        out.count(&format!("{}_streams_with_expected_rows", fam), 1);
+    }
+    out.max(&format!("max_{}_rows_in_one_firing", fam), exp.iter().map(|f| f.len()).max().unwrap_or(0) as u64);
+    match cfg.family {
+        "static" => {
+            // a window-block answer that has no static partner must not produce a row
+            let b_in_window = contents.iter().any(|c| c.contains(&1));
+            if b_in_window {
+                out.count("static_streams_with_a_block_answer_without_static_partner", 1);
+            }
+            out.count("static_firings", contents.len() as u64);
+        }
+        "fat" => {
+            if exp.iter().any(|f| f.len() > 64) {
+                out.count("fat_streams_with_a_firing_of_more_than_64_join_rows", 1);
+            }
+            if contents.windows(2).any(|p| p[0].contains(&0) && !p[1].contains(&0)) {
+                out.count("fat_streams_where_the_fat_event_is_evicted", 1);
+            }
+        }
+        "wide" if cfg.name == "two_premise" => {
+            // the derived row needs items 0 and 1 together; then one of them leaves
+            if contents.windows(2).any(|p| p[0].contains(&0) && p[0].contains(&1) && (p[1].contains(&0) != p[1].contains(&1))) {
+                out.count("two_premise_streams_where_one_of_two_premises_is_evicted", 1);
+            }
+        }
+        _ => {}
+    }
+    if let Some(single) = check_single(out, op, w, cfg, stream) {
+        if let Some(bound) = mt_bound {
+            if sched::available() {
+                out.count(&format!("{}_streams_under_schedules", fam), 1);
+                check_multi(out, ctx, op, w, cfg, stream, &single, bound);
+            }
+        }
+    }
+}
+
+/// Families added after the audit of round 3: wide observability, one window + static part, fat events,
+/// query-text / entry-point variants. They continue the global case numbering.
+fn run_new_families(ctx: &Ctx, out: &mut ShardOut, all: &[Config], idx: &mut u64) {
+    let gaps: Vec<usize> = vec![0, 1, 2];
+    let thorough = ctx.thorough();
+    let mut expired = |out: &mut ShardOut, what: &str| -> bool {
+        if ctx.expired() {
+            out.capped.push(format!("wall-clock cap hit in the {} family", what));
+            true
+        } else {
+            false
+        }
+    };
+    // --- wide: `?s ?p ?o` over the whole store (no rules / two-step chain) and a two-premise rule ---
+    let wide: Vec<&Config> = all.iter().filter(|c| c.family == "wide").collect();
+    'wide: for (oi, op) in OPS.iter().enumerate() {
+        for (wi, w) in WINDOWS.iter().enumerate() {
+            for (ci, cfg) in wide.iter().enumerate() {
+                // quick: <= 3 items; two_premise needs 4 (both premises inside one firing, then one of them
+                // evicted at the next) and gets them for RSTREAM on the windows (3,1) and (4,2)
+                let maxlen = if thorough || (cfg.name == "two_premise" && oi == 0 && wi % 2 == 0) { 4 } else { 3 };
+                for len in 1..=maxlen {
+                    for stream in streams(len, &gaps) {
+                        *idx += 1;
+                        if !ctx.mine(*idx) {
+                            continue;
+                        }
+                        if *idx % 64 == 0 && expired(out, "wide") {
+                            break 'wide;
+                        }
+                        let mt = if thorough { len <= 3 } else { len <= 2 && (oi + wi + ci) % 2 == 0 };
+                        family_case(ctx, out, op, *w, cfg, &stream, if mt { Some(2) } else { None });
+                    }
+                }
+            }
+        }
+    }
+    // --- static: one window + a static pattern, SingleThread (deferred emission, drained) and MultiThread (coordinator) ---
+    let stat: Vec<&Config> = all.iter().filter(|c| c.family == "static").collect();
+    'stat: for op in OPS.iter() {
+        for w in [(3usize, 1usize), (2, 2)] {
+            for cfg in stat.iter() {
+                for len in 1..=(if thorough { 4 } else { 3 }) {
+                    for stream in streams(len, &gaps) {
+                        *idx += 1;
+                        if !ctx.mine(*idx) {
+                            continue;
+                        }
+                        if *idx % 64 == 0 && expired(out, "static") {
+                            break 'stat;
+                        }
+                        // three threads (producer, window worker, coordinator): quick = every schedule with <= 1
+                        // preemption for <= 2 items and every non-preemptive schedule for 3 items (the
+                        // coordinator lagging behind two firings needs 3 items)
+                        let mt = if thorough {
+                            if len <= 2 {
+                                Some(2)
+                            } else if len == 3 {
+                                Some(1)
+                            } else {
+                                None
+                            }
+                        } else if len <= 2 {
+                            Some(1)
+                        } else if w == (2, 2) {
+                            Some(0)
+                        } else {
+                            None
+                        };
+                        family_case(ctx, out, op, w, cfg, &stream, mt);
+                    }
+                }
+            }
+        }
+    }
+    // --- fat: one event of 140 triples (70 join rows) ---
+    let fat: Vec<&Config> = all.iter().filter(|c| c.family == "fat").collect();
+    'fat: for op in OPS.iter() {
+        for w in [(2usize, 2usize), (3, 1)] {
+            for cfg in fat.iter() {
+                for len in 1..=(if thorough { 3 } else { 2 }) {
+                    for stream in streams(len, &gaps) {
+                        *idx += 1;
+                        if !ctx.mine(*idx) {
+                            continue;
+                        }
+                        if expired(out, "fat") {
+                            break 'fat;
+                        }
+                        let mt = thorough && len <= 2;
+                        family_case(ctx, out, op, w, cfg, &stream, if mt { Some(1) } else { None });
+                    }
+                }
+            }
+        }
+    }
+    // --- variants: other spellings of the same window / other entry points for the same stream ---
+    if let Some(base) = all.iter().find(|c| c.name == "join_subclass") {
+        'var: for variant in VARIANTS {
+            let cfg = Config { variant, ..base.clone() };
+            for op in OPS.iter() {
+                for w in [(3usize, 1usize), (2, 2)] {
+                    if variant == Variant::RangeOnly && w.0 != w.1 {
+                        continue; // `[RANGE w]` means slide = width
+                    }
+                    // the entry-point variants do not depend on the window shape: one window in quick
+                    if !thorough && w == (3, 1) && matches!(variant, Variant::LegacyAdd | Variant::BareStreamName) {
+                        continue;
+                    }
+                    // the variants concern window parameters and stream routing, not the stream operator:
+                    // quick runs 3-item streams for RSTREAM only
+                    for len in 1..=(if thorough { 4 } else if *op == "RSTREAM" { 3 } else { 2 }) {
+                        for stream in streams(len, &gaps) {
+                            *idx += 1;
+                            if !ctx.mine(*idx) {
+                                continue;
+                            }
+                            if *idx % 64 == 0 && expired(out, "variant") {
+                                break 'var;
+                            }
+                            out.count(&format!("variant_{}_streams", variant.name()), 1);
+                            let mt = thorough && len <= 2;
+                            family_case(ctx, out, op, w, &cfg, &stream, if mt { Some(1) } else { None });
+                        }
+                    }
+                }
+            }
+        }
+    }
+}
+
 fn run(ctx: &Ctx) -> ShardOut {
     let mut out = ShardOut::default();
-    let cfgs = configs();
+    let all_cfgs = configs();
+    let cfgs: Vec<Config> = all_cfgs.iter().filter(|c| c.family == "core").cloned().collect();
     let gaps: Vec<usize> = vec![0, 1, 2];
     let maxlen = if ctx.thorough() { 5 } else { 4 };
     let mut idx = 0u64;
@@ -537,6 +885,7 @@ fn run(ctx: &Ctx) -> ShardOut {
             }
         }
     }
+    run_new_families(ctx, &mut out, &all_cfgs, &mut idx);
     if !sched::available() {
         out.machinery_errors.push("hook H1 (kolibrie::verif_sched) is not compiled in: the harness must be built with --cfg kolibrie_verif".into());
     }
@@ -550,6 +899,7 @@ fn replay(ctx: &Ctx, case: &Value) -> ShardOut {
         out.machinery_errors.push("replay: unknown config".into());
         return out;
     };
+    let cfg = &Config { variant: case["variant"].as_str().and_then(Variant::parse).unwrap_or(Variant::Default), ..cfg.clone() };
     let op = OPS.iter().find(|o| Some(**o) == case["op"].as_str()).copied().unwrap_or("RSTREAM");
     let w = (case["width"].as_u64().unwrap_or(3) as usize, case["slide"].as_u64().unwrap_or(1) as usize);
     let stream: Stream = case["stream"].as_array().map(|a| a.iter().filter_map(|p| Some((p.get(0)?.as_u64()? as usize, p.get(1)?.as_u64()? as usize))).collect()).unwrap_or_default();
@@ -566,7 +916,7 @@ fn replay(ctx: &Ctx, case: &Value) -> ShardOut {
                             case_json(op, w, cfg, &stream, "multi", Some(&trace.choices)),
                             "multi_thread_emission_differs",
                             format!("single-thread emitted {:?}\n  multi-thread under schedule {:?} emitted {:?}", single, trace.choices, rows),
-                            tags(op, cfg, "multi"),
+                            multi_tags(op, w, cfg, &stream, &rows),
                         );
                     }
                 }
